@@ -135,8 +135,14 @@ def nontrivial_idtoken(op, obs):
     return obs.startswith("idtoken ") or (obs.startswith("err ") and "granted=,openid" in op)
 
 
+def nontrivial_authz(op, obs):
+    return obs.startswith("accept") or "placement=json" not in obs or any(
+        e in obs for e in ("invalid_request_object", "invalid_request_uri", "request_not_supported",
+                           "request_uri_not_supported", "error/500"))
+
+
 PURE_NONTRIVIAL = {"scope": nontrivial_scope, "audience": nontrivial_audience, "hmac": nontrivial_hmac, "redirect": nontrivial_redirect, "render": nontrivial_render,
-                   "clientauth": nontrivial_clientauth, "expiry": nontrivial_expiry, "assertion": nontrivial_assertion, "idtoken": nontrivial_idtoken}
+                   "clientauth": nontrivial_clientauth, "expiry": nontrivial_expiry, "assertion": nontrivial_assertion, "idtoken": nontrivial_idtoken, "authz": nontrivial_authz}
 
 HIST_RULE = ("D1 history driver: seeded histories (2-5 clients, code / hybrid / refresh / revoke / introspect / time-advance / registration-change operations, ~70% valid continuations and ~30% adversarial moves: replay of any generation, foreign or unauthenticated client, changed redirect_uri, verifier variants, mutated or foreign tokens, smuggled parameters, boundary time jumps) executed in-process against the real library over the reference store inside a synctest bubble and against the Lean model; compared per operation: outcome (+RFC error/status), storage-call log, full store dump; a history is non-trivial when an accepted credential exchange is followed by a later operation on one of its tokens; distinct = distinct op sequences")
 
@@ -194,13 +200,14 @@ PROPS = {
         partial=["caller authentication of the HTTP introspection endpoint (NewIntrospectionRequest) is not yet in the model; refresh-token soundness/completeness mirror the access-token theorems and are covered by the refinement theorem"],
     ),
     "C11": dict(
-        modules=["Fosite.Props.C11"],
-        drivers=[dict(name="redirect", kind="pure")],
+        modules=["Fosite.Props.C11", "Fosite.Props.C11b"],
+        drivers=[dict(name="redirect", kind="pure"), dict(name="authz", kind="pure", spec_sees_obs=True)],
         rule="D4 pure driver: MatchRedirectURIWithClientRedirectURIs / IsValidRedirectURI / IsRedirectURISecure(Strict) / IsLocalhost called directly; every op line carries the raw strings AND the components the real net/url, net.ParseIP and govalidator computed (the executor recomputes them and refuses tampered lines). Cases: bounded-exhaustive concatenations scheme x userinfo x host x port x path x query x fragment over a small (quick) / mid (thorough) alphabet; one- and two-component deviations of 8 base URIs over a large near-miss alphabet (case, percent-encoding, userinfo, ports, v4/v6/mapped loopback literals, look-alike hosts, dot-segments, query variants, fragments, relative, opaque, custom schemes); hand-picked strings (control characters, backslashes, embedded URLs); omitted redirect_uri against 0/1/2 registrations; seeded random registrations with requests derived by re-picking components and string mutations. Non-trivial = accepted, or rejected by the function's own logic on a near miss (the requested string parses and shares its case-folded host name with a parseable registered URI; redirect_uri omitted with something registered; unary functions: the URL parses). distinct = distinct op lines",
         assumptions=["url.Parse, URL.String/Hostname/Port, net.ParseIP(..).IsLoopback and govalidator.IsRequestURL are parameters: their observed outputs are fed to the model per case",
                      "ParserFaithful (IsRequestURL(u.String()) implies u.Scheme != \"\") is an explicit hypothesis of the two 'absolute' theorems and is checked by the executor on every case",
                      "generated strings are valid UTF-8"],
-        partial=["the response-writer / placement half (WriteAuthorizeError, WriteAuthorizeResponse: Location observed at the recorder; error rendered directly when the URI does not qualify; code flow and PAR secure-redirect checks through the handlers) is not yet modelled; this covers the decision functions"],
+        partial=["writer half (Props/C11b): proved over the authorize-endpoint model of the authz driver (see C13 for its rule and parameters); the PAR and device endpoints write no redirects",
+                 "form_post with a custom-scheme redirect URI: html/template rewrites the form action (recorded known finding authz:formpost-custom-scheme)"],
     ),
     "C12": dict(
         modules=["Fosite.Props.C12", "Fosite.Props.C12b"],
@@ -249,6 +256,15 @@ PROPS = {
         partial=["the token-endpoint spec assumes all responsible handlers agree on CanSkipClientAuth (true of every composition)",
                  "RemoveEmpty's trimming of non-space whitespace is not modelled"],
     ),
+    "C13": dict(
+        modules=["Fosite.Props.C13"],
+        drivers=[dict(name="authz", kind="pure", spec_sees_obs=True)],
+        rule="D6 pure driver 'authz': the real NewAuthorizeRequest -> grant scopes and openid.DefaultSession -> NewAuthorizeResponse -> WriteAuthorizeResponse / WriteAuthorizeError into httptest.ResponseRecorder, against ComposeAllEnabled over storage.NewMemoryStore. Streams: core (registration: response types x grant types x response modes; 22 response_type strings incl. orderings, duplicates, unknown, case variants, empty; response_mode in {'', query, fragment, form_post, bogus}; scope +- openid; nonce length), state (lengths around the threshold in bytes vs characters, hostile characters, x mode x MinParameterEntropy), redirect (12 registrations x 25 requested redirect_uri values x flow x mode x a later failure), ro (22 request-object variants x 14 registrations x 7 transports x 14 claim sets), prompt (prompt x max_age x session times x public x redirect security x id_token_hint), pkce, misc, rand. Compared per case: verdict plus RFC name/status, HTTP status, placement, target scheme://host/path, sorted parameter names at the placement and in the URL query, echoed state, tokens_in_query. Non-trivial = accepted, or error redirected, or request-object path reached; distinct = distinct op lines",
+        assumptions=['net/url, ParseIP, govalidator facts per URI (as in C11), strings.ToLower, strconv.ParseInt are parameters recomputed by the executor (bad-facts otherwise)', 'JWS facts {malformed | alg, kid, signer, claimsValid, claims} under jws_verify_sound; HTTP fetch of request_uri served from one httptest.Server through a rewriting transport', 'audience-strategy verdict (C12), id_token_hint decode, url.ParseQuery keys of the redirect URI, html/template URL filter on the form action are parameters', 'storage and minting always succeed (C18); request_uri never carries the PAR prefix (C17); max_age is small (time.Second*maxAge overflow not modelled)'],
+        partial=["the jwks_uri (remote JWKS) branch is modelled but never executed by the harness",
+                 "'can never turn a code into tokens' for the plain code flow is the token endpoint's check (C02); C13 proves the hybrid gate at the authorize endpoint",
+                 "no capstone theorem 'the monitor never fires on model output' (holds empirically: impl = model on all cases)"],
+    ),
     "C14": dict(
         modules=["Fosite.Props.C14"],
         drivers=[dict(name="idtoken", kind="pure", spec_sees_obs=True)],
@@ -272,6 +288,17 @@ PROPS = {
                      "readings, each the one demanding less: unexpired = whole seconds; nbf <= now; a jti once = one (jti, exp) ticket"],
         partial=["JWKS-URI registrations and client_secret_jwt are not modelled",
                  "concurrency theorems are over three atomic steps per presentation (lookup + pure checks, ClientAssertionJWTValid, SetClientAssertionJWT) with an arbitrary scheduler; the Go memory model is not modelled"],
+    ),
+    "C18": dict(
+        modules=["Fosite.Props.C18"],
+        drivers=[dict(name="hist", kind="hist")],
+        rule=HIST_RULE + " — D2 fault injection: `fault ,<i>:<kind>,…` installs a fault plan for the next operation (storage-call index of that operation -> generic error / ErrNotFound / ErrSerializationFailure; begin, commit and rollback are storage calls like any other); cfg tx=1 puts the recording store behind storage.Transactional with real rollback (BeginTX snapshots every table of the reference store, Rollback restores it). C18 bias: every endpoint operation is either swept (the same request repeated with a single fault at call index 0,1,2,… until it goes through, optionally with a second fault 1-2 calls later to hit the rollback / commit / clean-up), or preceded by one or two random faults and followed by a fault-free retry, or run fault-free; two thirds of the histories are transactional. Compared with the model: outcome, the full storage-call log including the injected results, and the store dump after every operation",
+        assumptions=["faults are storage calls answering with an error; the store's tables are not corrupted by a failed call (exec_err_store in the model, the wrapper returns before touching the reference store)",
+                     "the transactional store of the harness is the reference store with snapshot/restore; other isolation levels are not modelled",
+                     "an injected ErrNotFound at GetPKCERequestSession / GetOpenIDConnectSession / DeletePKCERequestSession is an ordinary lookup answer for the handlers (Unexpected excludes exactly these three call sites)"],
+        partial=["retry_after_rollback_partial: after a rolled-back failure the state equals the state before the request except for the mint counter and the request runs the same program; equivalence of the retry's outcome up to renaming of fresh signatures is not a theorem (the driver's retries check it on traces)",
+                 "serialization conflicts are mapped to a retryable answer only by the refresh flow (code and device flows answer server_error): stated as evaluated examples, not demanded by the monitor",
+                 "failures after commit (OIDC / PKCE session clean-up) refuse the request although the grant is applied; password, hybrid-authorize and PAR-use flows run without a transaction: fail-closed only (Post false)"],
     ),
     "C19": dict(
         modules=["Fosite.Props.C19"],
@@ -571,7 +598,14 @@ def run_pure(R, pid, d, work, seed, tier, replay_file=None):
             f = o.split("\t")
             sig = "%s:%s" % (f[0], f[1])
             if s.startswith("VIOLATION "):
-                sig = "%s:%s" % (f[0], s[len("VIOLATION "):].split(" ")[0])
+                # the spec names the violated clauses; clauses tagged with another property are that property's business
+                clauses = [c for c in s[len("VIOLATION "):].split(" ") if c]
+                import re as _re
+                mine = [c for c in clauses if not _re.match(r"^C\d\d:", c) or c.startswith(pid + ":")]
+                if not mine:
+                    continue
+                stream = "" if "=" in f[1] else f[1] + ":"
+                sig = "%s:%s%s" % (f[0], stream, mine[0])
             if sig in seen:
                 continue
             seen.add(sig)
